@@ -45,7 +45,9 @@ class Builder:
     def mark(self, hs, inh, indent, kind="mark", h=0):
         ln = len(self.lines) + 1
         if kind == "hmark":
-            self.emit('%sdiag_log ["H", isNil "_exception"];' % indent, self.item("hmark", hs, h, inh))
+            # _exception holds the error that was caught: set, and free of the stack-trace report of an (earlier) failed
+            # run - "H,true" is printed otherwise
+            self.emit('%sdiag_log ["H", (isNil "_exception") || {((str _exception) find "Stacktrace") >= 0}];' % indent, self.item("hmark", hs, h, inh))
         else:
             self.emit("%sdiag_log %d;" % (indent, ln), self.item(kind, hs, h, inh))
 
@@ -187,6 +189,11 @@ def make_case(rng, cid, plan, layout):
     elif layout in ("then-clean", "cli-then-clean"):
         runs = [{"scripts": [sa]}, {"scripts": [sb]}]
         tabs = {"a": tab, "b": ctab}
+    elif layout in ("after-failed", "cli-after-failed"):
+        # a run that failed (unhandled error) comes first: nothing of it may show in the run under test
+        ftext, ftab, _ = build_script(rng, "f", [("mark",), ("errx",), ("mark",)])
+        runs = [{"scripts": [{"name": "f", "text": ftext, "suspend": False}]}, {"scripts": [sa]}]
+        tabs = {"f": ftab, "a": tab}
     elif layout in ("clean-then", "cli-clean-then"):
         runs = [{"scripts": [sb]}, {"scripts": [sa]}]
         tabs = {"a": tab, "b": ctab}
@@ -270,7 +277,7 @@ def run(rep, tier, seed, replay):
     rep.assumptions += [
         "scripts are generated with one statement per line; the diagnostic's line identifies the statement (a notice that is late within the same line is not observable and not demanded)",
         "erroring statements are drawn from a pool of operations that emit exactly one error-level diagnostic",
-        "handlers are except__ blocks; their first statement logs whether _exception is set",
+        "handlers are except__ blocks; their first statement logs whether _exception is set and free of the stack-trace report of another failure",
         "'reported as failed' is read as runtime::execute returning runtime_error plus a stack trace diagnostic (the CLI process status is not asserted)",
     ]
     if replay:
@@ -292,11 +299,11 @@ def run(rep, tier, seed, replay):
             rep.design_runs.append({"what": "deviation ErrorNoticedLate/flag-survives refuted (non-vacuity), together=%s" % t, "generated": r2.generated, "distinct": r2.distinct})
         cases = []
         for n, plan in systematic_plans():
-            for layout in ("single", "then-clean", "beside-clean", "clean-then", "cli-then-clean", "cli-clean-then"):
+            for layout in ("single", "then-clean", "beside-clean", "clean-then", "after-failed", "cli-then-clean", "cli-clean-then", "cli-after-failed"):
                 cases.append(make_case(rng, "sys-%s-%s" % (n, layout), plan, layout))
         nrand = 400 if tier == "quick" else 8000
         for i in range(nrand):
-            cases.append(make_case(rng, "rnd%d" % i, random_plan(rng, 0, [2]), rng.choice(["single", "then-clean", "beside-clean", "clean-then"])))
+            cases.append(make_case(rng, "rnd%d" % i, random_plan(rng, 0, [2]), rng.choice(["single", "then-clean", "beside-clean", "clean-then", "after-failed"])))
     rep.evaluations = len(cases)
     rep.rule = ("an erroring statement of each kind (raised by the executing instruction / inside an iteration behaviour) at each structural position "
                 "(straight-line, last statement, inside each loop/call construct, inside handled blocks, inside handlers, nested handlers) x run layout "
